@@ -23,6 +23,9 @@ pub struct Case02 {
     pub vocab: VocabSpec,
     pub walk: Vec<Step>,
     pub reseg: Vec<u16>,
+    /// the token-level engine is built with the default token slices (the byte-level twin never is)
+    #[serde(default)]
+    pub slices: bool,
 }
 
 pub struct C02;
@@ -95,12 +98,12 @@ impl Prop for C02 {
     }
     fn strategy(&self, tier: Tier) -> BoxedStrategy<Case02> {
         let bpe_n = tier.pick(512usize, 2048usize);
-        any_grammar()
+        prop_oneof![8 => crate::gen::any_grammar_core_ext(), 1 => string_heavy_grammar()]
             .prop_flat_map(move |g| {
-                let voc = prop_oneof![4 => syn_vocab_strategy(g.clone(), false), 1 => Just(VocabSpec::bpe(bpe_n, false))];
-                (Just(g), voc, steps(30), proptest::collection::vec(any::<u16>(), 3..10))
+                let voc = prop_oneof![4 => syn_vocab_strategy(g.clone(), false), 1 => Just(VocabSpec::bpe(bpe_n, false)), 1 => slice_rich_vocab()];
+                (Just(g), voc, steps(30), proptest::collection::vec(any::<u16>(), 3..10), proptest::bool::weighted(0.4))
             })
-            .prop_map(|(g, vocab, walk, reseg)| Case02 { g, vocab, walk, reseg })
+            .prop_map(|(g, vocab, walk, reseg, slices)| Case02 { g, vocab, walk, reseg, slices })
             .boxed()
     }
 
@@ -115,7 +118,15 @@ impl Prop for C02 {
         };
         let n = vocab.len();
         let bv = byte_vocab();
-        let fa = factory_tight(&vocab);
+        let mut fa = factory_tight(&vocab);
+        if case.slices {
+            ctx.class("token_engine_with_default_slices");
+            let lim = fa.limits().clone();
+            fa = match factory_ext(&vocab, &llguidance::earley::SlicedBiasComputer::general_slices(), InferenceCapabilities::default(), Some(lim)) {
+                Ok(f) => f,
+                Err(_) => return Ok(()),
+            };
+        }
         let fb = factory_tight(&bv);
         let mut a = matcher(&fa, &case.g);
         let mut twin = matcher(&fb, &case.g);
@@ -319,7 +330,7 @@ fn slices_strategy() -> impl Strategy<Value = Slices> {
     ]
 }
 
-fn string_heavy_grammar() -> BoxedStrategy<GrammarSpec> {
+pub fn string_heavy_grammar() -> BoxedStrategy<GrammarSpec> {
     let s = (0u64..4, 0u64..40, 0usize..6).prop_map(|(lo, span, kind)| {
         let str_s = match kind {
             0 => json!({"type":"string","minLength":lo,"maxLength":lo+span}),
@@ -345,7 +356,7 @@ fn string_heavy_grammar() -> BoxedStrategy<GrammarSpec> {
     .boxed()
 }
 
-fn slice_rich_vocab() -> BoxedStrategy<VocabSpec> {
+pub fn slice_rich_vocab() -> BoxedStrategy<VocabSpec> {
     let tok = prop_oneof![
         6 => proptest::collection::vec(prop_oneof![Just(b'a'), Just(b'b'), Just(b'e'), Just(b't'), Just(b'l'), Just(b'p'), Just(b'h'), Just(b'z'), Just(b' '), Just(b'0'), Just(b'1'), Just(b'2'), Just(b'-'), Just(b'A'), Just(b':'), Just(b'>'), Just(b';'), Just(b'.'), Just(b'=')], 1..12),
         1 => proptest::collection::vec(prop_oneof![Just(b'a'), Just(b'x'), Just(b' ')], 12..40),
